@@ -29,8 +29,13 @@ def flag_definitions(repo: Repo) -> Dict[str, ast.expr]:
         c = SymClient(repo, init, event_of=lambda *a: None, hierarchy=exc_hierarchy(repo), inline=helper,
                       store_event=lambda t: t.startswith('self.'))
         fin = c.final_states(c.run(empty_state()))
+        # (a path on which the type is a literal -- a helper returned a record it built -- says nothing about how the flags are
+        # computed from the type: the paths on which the type is read from a record come first)
+        fin = sorted(fin, key=lambda sh: 1 if (sh[0].field('EXT:self', 'status_type') or '')[:1] in ('"', "'") else 0)
         for s, how in fin:
             tt = s.field('EXT:self', 'status_type')
+            if tt and tt[:1] in ('"', "'") and out:
+                continue
             for t_, f_, v_ in s.heap:
                 if t_ == 'EXT:self' and f_.startswith('is_'):
                     try:
